@@ -589,6 +589,11 @@ def check(fx, rep, tier):
         rep.oblige(False, "R09.2", f"fold:{v}", "-", f"operator `{v}` is foldable per the oracle but the folding function has no arm for it (constants are no longer folded through it)")
     check_word_ops(fx, rep)
     rep.exhaustive = True
+    # folding reaches every sub-expression: the generic transformer the folder rides on rebuilds every variant with each of its
+    # children transformed (C18 R18.2 rebuild:*); a child that is only copied keeps its constant sub-expressions unfolded
+    from .. import core as _core9
+
+    _core9.import_rules(rep, fx, "C18", "R09.4", only_rules=("R18.2",), floor=40, what="transformer obligations (C18 R18.2 rebuild) behind 'any sub-expression built only from constants is replaced'", key_filter=lambda k: "rebuild:" in k)
     return rep.finish(
         "Static audit of the constant folder: each of the arms of the folding match is checked for rebuild identity "
         "(same variant, same child in the same field) and for folding with the EVM operation and operand order given "
